@@ -366,7 +366,10 @@ class YP(object):
             name = term._name
             args = []
 
-        remaining_clauses = self._find_predicates(name, len(args))[:]
+        try:
+            remaining_clauses = self._find_predicates(name, len(args))[:]
+        except YPException:
+            return
         i = 0
         while i < len(remaining_clauses):
             clause = remaining_clauses[i]
@@ -389,7 +392,11 @@ class YP(object):
             name = term._name
             args = []
         remaining_clauses = []
-        for clause in self._find_predicates(name, len(args)):
+        try:
+            clauses = self._find_predicates(name, len(args))
+        except YPException:
+            return YPSuccess()
+        for clause in clauses:
             match = False
             for cut in clause.match(args):
                     match = True
